@@ -158,7 +158,7 @@ def one(ctx, cfg, rich, wild, via, tmproot, with_return=False, key=0):
     try:
         extra = key % 3 == 0 and not (cfg["method"] and cfg["truth"] == "function")
         p = make_project(ctx.case_rng("{}:{}".format(key, with_return)), root, cfg["truth"], cfg["pre"], method=cfg["method"], rich=rich, kinds=cfg["kinds"], wild=wild, with_return=with_return,
-                         extra_same_kind=extra)
+                         extra_same_kind=extra, tilde_ok=True)
         if extra:
             ctx.feature("second_file_of_truth_kind")
         wild = wild or with_return  # return entries: judged by the differential oracle only
